@@ -3,10 +3,10 @@ import Proofs.Lemmas.ParArch
 /-!
 # C12 -- liveness accounting for the ParallelArchipelago message protocol, part 1
 
-Runs of `Model/ParArch.lean` as action lists, an inversion of `step` into one constructor per protocol
-transition (`Step0`, `StepHC`), the extra invariant `Mono` (per source, the ages waiting in rank 0's
-mailbox are non-decreasing and not below the `total_age` entry of that source), and the budget
-`R * target - sum(total_age.values())` of rank 0's loop, which never grows.
+Runs of `Model/ParArch.lean` as action lists and the classification of actions.  (The inversion of `step`
+into one constructor per protocol transition, `Step0` / `StepHC`, is in `Proofs/Lemmas/ParArchSteps.lean`;
+the extra invariant `Mono` is in `ParArchLiveMono.lean`; the budget
+`target_total_age - sum(total_age.values())` of rank 0's loop, which never grows, in `ParArchLivePot.lean`.)
 -/
 set_option linter.unusedSimpArgs false
 set_option linter.unusedVariables false
@@ -75,7 +75,8 @@ def r0Proto (a : Action) : Bool := a.rank == 0 && !isTick a
 /-- a protocol operation of rank `r` -/
 def rProto (r : Nat) (a : Action) : Bool := a.rank == r && !isTick a
 
-/-- completion of one `island.evolve` slice of rank 0 = one iteration of `while average_age < target_age` -/
+/-- completion of one `island.evolve` slice of rank 0 = one iteration of
+`while sum(total_age.values()) < target_total_age` -/
 def isEvolve0 : Action → Bool
   | .evolve r _ => r == 0
   | _ => false
@@ -90,236 +91,6 @@ def helperSend : Action → Bool
 def slicePos : Action → Bool
   | .evolve r k => r != 0 || decide (0 < k)
   | _ => true
-
-/-! ## inversion of `step0` / `stepH`: one constructor per protocol transition -/
-
-/-- the transitions of rank 0 -/
-inductive Step0 (s : State) : Action → State → Prop
-  | tick (r : Nat) (h : s.pc0 = .evolving) : Step0 s (.tick r) s
-  | evolve (r k : Nat) (h : s.pc0 = .evolving) :
-      Step0 s (.evolve r k)
-        { s with ages := s.ages.set 0 (age s 0 + k), table := s.table.set 0 (some (age s 0 + k)), pc0 := .draining none }
-  | probeSome (r q : Nat) (h : s.pc0 = .draining none) (hq : headSource s = some q) :
-      Step0 s (.iprobe r none tagAge (some q)) { s with pc0 := .draining (some q) }
-  | probeLoop (r : Nat) (h : s.pc0 = .draining none) (hq : headSource s = none) (hb : belowTarget s = true) :
-      Step0 s (.iprobe r none tagAge none) { s with pc0 := .evolving }
-  | probeExit (r : Nat) (h : s.pc0 = .draining none) (hq : headSource s = none) (hb : belowTarget s = false) :
-      Step0 s (.iprobe r none tagAge none) { s with pc0 := afterExit s.R 1 }
-  | probeSomeF (r q : Nat) (h : s.pc0 = .finalDrain none) (hq : headSource s = some q) :
-      Step0 s (.iprobe r none tagAge (some q)) { s with pc0 := .finalDrain (some q) }
-  | probeDone (r : Nat) (h : s.pc0 = .finalDrain none) (hq : headSource s = none) :
-      Step0 s (.iprobe r none tagAge none) { s with pc0 := .done }
-  | recv (r src a : Nat) (rest : List (Nat × Nat)) (h : s.pc0 = .draining (some src))
-      (ht : takeFrom src s.mbox = some (a, rest)) :
-      Step0 s (.recv r src tagAge) { s with mbox := rest, table := s.table.set src (some a), pc0 := .draining none }
-  | recvF (r src a : Nat) (rest : List (Nat × Nat)) (h : s.pc0 = .finalDrain (some src))
-      (ht : takeFrom src s.mbox = some (a, rest)) :
-      Step0 s (.recv r src tagAge) { s with mbox := rest, table := s.table.set src (some a), pc0 := .finalDrain none }
-  | sendExit (r k : Nat) (h : s.pc0 = .sendingExit k) (hk : k < s.R) :
-      Step0 s (.isend r k tagExit)
-        { s with exitQ := s.exitQ.set k (s.exitQ.getD k 0 + 1), pc0 := afterExit s.R (k + 1) }
-  | enter (r : Nat) (h : s.pc0 = .atBarrier) :
-      Step0 s (.barrierEnter r) { s with arrived := s.arrived.set 0 true, pc0 := .inBarrier }
-  | leave (r : Nat) (h : s.pc0 = .inBarrier) (ha : allArrived s = true) :
-      Step0 s (.barrierLeave r) { s with table := s.table.set 0 (some (age s 0)), pc0 := .finalDrain none }
-
-theorem step0_cases {s s' : State} {a : Action} (h : step0 s a = some s') : Step0 s a s' := by
-  cases a with
-  | tick r =>
-    simp only [step0] at h
-    split at h
-    · rename_i hpc; injection h with h; subst h; exact .tick r (by simpa using hpc)
-    · cases h
-  | evolve r k =>
-    simp only [step0] at h
-    split at h
-    · rename_i hpc; injection h with h; subst h; exact .evolve r k (by simpa using hpc)
-    · cases h
-  | iprobe r src tag found =>
-    simp only [step0] at h
-    split at h
-    · cases h
-    · rename_i hc
-      simp only [bne_iff_ne, ne_eq, Bool.or_eq_true, decide_eq_true_eq, not_or, Decidable.not_not] at hc
-      obtain ⟨⟨hsrc, htag⟩, hfound⟩ := hc
-      subst hsrc htag
-      split at h
-      · rename_i q hpc; injection h with h; subst h; exact .probeSome r q hpc hfound.symm
-      · rename_i hpc
-        injection h with h; subst h
-        by_cases hb : belowTarget s = true
-        · simp only [hb, if_true]; exact .probeLoop r hpc hfound.symm hb
-        · have hb' : belowTarget s = false := by simpa using hb
-          simp only [hb', Bool.false_eq_true, if_false]; exact .probeExit r hpc hfound.symm hb'
-      · rename_i q hpc; injection h with h; subst h; exact .probeSomeF r q hpc hfound.symm
-      · rename_i hpc; injection h with h; subst h; exact .probeDone r hpc hfound.symm
-      · cases h
-  | recv r src tag =>
-    simp only [step0] at h
-    split at h
-    · cases h
-    · rename_i htag
-      have htag : tag = tagAge := by simpa using htag
-      subst htag
-      split at h
-      · rename_i q hpc
-        split at h
-        · cases h
-        · rename_i hq
-          have hq : q = src := by simpa using hq
-          subst hq
-          split at h
-          · cases h
-          · rename_i a rest htake
-            injection h with h; subst h
-            exact .recv r q a rest hpc htake
-      · rename_i q hpc
-        split at h
-        · cases h
-        · rename_i hq
-          have hq : q = src := by simpa using hq
-          subst hq
-          split at h
-          · cases h
-          · rename_i a rest htake
-            injection h with h; subst h
-            exact .recvF r q a rest hpc htake
-      · cases h
-  | isend r dest tag =>
-    simp only [step0] at h
-    split at h
-    · rename_i k hpc
-      split at h
-      · cases h
-      · rename_i hc
-        simp only [bne_iff_ne, ne_eq, Bool.or_eq_true, decide_eq_true_eq, not_or, Decidable.not_not,
-          Bool.not_eq_true', decide_eq_false_iff_not] at hc
-        obtain ⟨⟨hd, ht⟩, hk⟩ := hc
-        subst hd ht
-        injection h with h; subst h
-        exact .sendExit r dest hpc hk
-    · cases h
-  | barrierEnter r =>
-    simp only [step0] at h
-    split at h
-    · rename_i hpc; injection h with h; subst h; exact .enter r (by simpa using hpc)
-    · cases h
-  | barrierLeave r =>
-    simp only [step0] at h
-    split at h
-    · rename_i hpc
-      injection h with h; subst h
-      simp at hpc
-      exact .leave r hpc.1 hpc.2
-    · cases h
-
-/-- the transitions of helper `r` -/
-inductive StepHC (s : State) (r : Nat) : Action → State → Prop
-  | tick (r' : Nat) (h : pcOf s r = .evolving) : StepHC s r (.tick r') s
-  | evolve (r' k : Nat) (h : pcOf s r = .evolving) :
-      StepHC s r (.evolve r' k) { s with ages := s.ages.set r (age s r + k), pcH := s.pcH.set r .sending }
-  | send (r' : Nat) (h : pcOf s r = .sendFirst ∨ pcOf s r = .sending) :
-      StepHC s r (.isend r' 0 tagAge) { s with mbox := s.mbox ++ [(r, age s r)], pcH := s.pcH.set r .checking }
-  | probeYes (r' : Nat) (h : pcOf s r = .checking) (hq : 0 < s.exitQ.getD r 0) :
-      StepHC s r (.iprobe r' (some 0) tagExit (some 0)) { s with pcH := s.pcH.set r .recvExit }
-  | probeNo (r' : Nat) (h : pcOf s r = .checking) (hq : s.exitQ.getD r 0 = 0) :
-      StepHC s r (.iprobe r' (some 0) tagExit none) { s with pcH := s.pcH.set r .evolving }
-  | recv (r' : Nat) (h : pcOf s r = .recvExit) (hq : s.exitQ.getD r 0 ≠ 0) :
-      StepHC s r (.recv r' 0 tagExit)
-        { s with exitQ := s.exitQ.set r (s.exitQ.getD r 0 - 1), pcH := s.pcH.set r .atBarrier }
-  | enter (r' : Nat) (h : pcOf s r = .atBarrier) :
-      StepHC s r (.barrierEnter r') { s with arrived := s.arrived.set r true, pcH := s.pcH.set r .inBarrier }
-  | leave (r' : Nat) (h : pcOf s r = .inBarrier) (ha : allArrived s = true) :
-      StepHC s r (.barrierLeave r') { s with pcH := s.pcH.set r .done }
-
-theorem stepH_cases {s s' : State} {a : Action} {r : Nat} (h : stepH s r a = some s') : StepHC s r a s' := by
-  cases a with
-  | tick r' =>
-    simp only [stepH] at h
-    split at h
-    · rename_i hpc; injection h with h; subst h; exact .tick r' (by simpa using hpc)
-    · cases h
-  | evolve r' k =>
-    simp only [stepH] at h
-    split at h
-    · rename_i hpc; injection h with h; subst h; exact .evolve r' k (by simpa using hpc)
-    · cases h
-  | isend r' dest tag =>
-    simp only [stepH] at h
-    split at h
-    · cases h
-    · rename_i hc
-      simp only [bne_iff_ne, ne_eq, Bool.or_eq_true, decide_eq_true_eq, not_or, Decidable.not_not] at hc
-      obtain ⟨hd, ht⟩ := hc
-      subst hd ht
-      split at h
-      · rename_i hpc
-        injection h with h; subst h
-        exact .send r' (by simpa using hpc)
-      · cases h
-  | iprobe r' src tag found =>
-    simp only [stepH] at h
-    split at h
-    · cases h
-    · rename_i hc
-      simp only [bne_iff_ne, ne_eq, Bool.or_eq_true, decide_eq_true_eq, not_or, Decidable.not_not] at hc
-      obtain ⟨⟨hsrc, htag⟩, hpc⟩ := hc
-      subst hsrc htag
-      by_cases hq : s.exitQ.getD r 0 > 0
-      · simp only [hq, decide_true, if_true] at h
-        split at h
-        · cases h
-        · rename_i hf
-          have hf : found = some 0 := by simpa using hf
-          subst hf
-          injection h with h; subst h
-          exact .probeYes r' hpc hq
-      · simp only [hq, decide_false, Bool.false_eq_true, if_false] at h
-        split at h
-        · cases h
-        · rename_i hf
-          have hf : found = none := by simpa using hf
-          subst hf
-          injection h with h; subst h
-          exact .probeNo r' hpc (by omega)
-  | recv r' src tag =>
-    simp only [stepH] at h
-    split at h
-    · cases h
-    · rename_i hc
-      simp only [bne_iff_ne, ne_eq, Bool.or_eq_true, decide_eq_true_eq, not_or, Decidable.not_not] at hc
-      obtain ⟨⟨hsrc, htag⟩, hpc⟩ := hc
-      subst hsrc htag
-      split at h
-      · cases h
-      · rename_i hq
-        injection h with h; subst h
-        exact .recv r' hpc hq
-  | barrierEnter r' =>
-    simp only [stepH] at h
-    split at h
-    · rename_i hpc; injection h with h; subst h; exact .enter r' (by simpa using hpc)
-    · cases h
-  | barrierLeave r' =>
-    simp only [stepH] at h
-    split at h
-    · rename_i hpc
-      injection h with h; subst h
-      simp at hpc
-      exact .leave r' hpc.1 hpc.2
-    · cases h
-
-/-- every transition of the model is a transition of rank 0 or of a helper `0 < r < R` -/
-theorem step_cases {s s' : State} {a : Action} (h : step s a = some s') :
-    (a.rank = 0 ∧ Step0 s a s') ∨ (0 < a.rank ∧ a.rank < s.R ∧ StepHC s a.rank a s') := by
-  unfold step at h
-  simp only at h
-  split at h
-  · rename_i h0; exact Or.inl ⟨h0, step0_cases h⟩
-  · split at h
-    · rename_i h0 hR
-      exact Or.inr ⟨by omega, hR, stepH_cases h⟩
-    · cases h
 
 end C12
 end Bingo
